@@ -25,7 +25,11 @@ PREFIX = '/simfs'
 _real = {
     'open': builtins.open, 'stat': os.stat, 'lstat': os.lstat, 'scandir': os.scandir, 'listdir': os.listdir,
     'mkdir': os.mkdir, 'getcwd': os.getcwd,
+    'os_open': os.open, 'close': os.close, 'read': os.read, 'write': os.write, 'fstat': os.fstat, 'fsync': os.fsync,
+    'ftruncate': os.ftruncate, 'lseek': os.lseek, 'rename': os.rename, 'replace': os.replace, 'remove': os.remove,
+    'unlink': os.unlink, 'rmdir': os.rmdir, 'access': os.access, 'utime': os.utime, 'chmod': os.chmod,
 }
+FAKE_FD_BASE = 1 << 20
 
 
 class _Node:
@@ -80,6 +84,8 @@ class SimFS:
         self.stats = {}            # what actually fired / happened (probes)
         self.escapes = []          # real-path I/O attempted from kernpy frames while mounted
         self._mounted = False
+        self._fds = {}             # fake file descriptor -> FakeRaw (os.open and friends)
+        self._next_fd = FAKE_FD_BASE
         self.seam_events = 0
         self.guard_root = None     # directory of the tree under test (escape detection)
         # logical modification time: 'frozen' = every write happens within the same second (the worst case for anything that
@@ -228,10 +234,40 @@ class SimFS:
 
     # ------------------------------------------------------------------ patched entry points
     def sim_open(self, file, mode='r', buffering=-1, encoding=None, errors=None, newline=None, closefd=True, opener=None):
+        if isinstance(file, int) and file in self._fds:
+            # io.open / os.fdopen on a descriptor obtained from the simulated os.open
+            raw = self._fds[file]
+            m = set(mode)
+            binary = 'b' in m
+            bufsize = io.DEFAULT_BUFFER_SIZE if buffering < 0 else buffering
+            if not closefd:
+                raw = _NoCloseRaw(raw)
+            else:
+                self._fds.pop(file, None)
+            if buffering == 0:
+                return raw
+            if '+' in m:
+                buf = io.BufferedRandom(raw, bufsize)
+            elif m & set('wax'):
+                buf = io.BufferedWriter(raw, bufsize)
+            else:
+                buf = io.BufferedReader(raw, bufsize)
+            if binary:
+                return buf
+            if encoding is None:
+                encoding = self.locale
+                self.bump('locale_default_encoding_used')
+            text = io.TextIOWrapper(buf, encoding, errors, newline, buffering == 1)
+            text.mode = mode
+            return text
         p = self.resolve(file)
         if p is None:
             self._guard('open', file)
             return _real['open'](file, mode, buffering, encoding, errors, newline, closefd, opener)
+        if opener is not None:
+            fd = opener(file, {'r': os.O_RDONLY, 'w': os.O_WRONLY | os.O_CREAT | os.O_TRUNC, 'a': os.O_WRONLY | os.O_CREAT | os.O_APPEND,
+                               'x': os.O_WRONLY | os.O_CREAT | os.O_EXCL}[next(ch for ch in mode if ch in 'rwax')] | (os.O_RDWR if '+' in mode else 0))
+            return self.sim_open(fd, mode, buffering, encoding, errors, newline, True, None)
         m = set(mode)
         binary = 'b' in m
         creating, writing, appending, reading, updating = 'x' in m, 'w' in m, 'a' in m, 'r' in m, '+' in m
@@ -371,6 +407,148 @@ class SimFS:
             f = f.f_back
             depth += 1
 
+    # ------------------------------------------------------------------ descriptor-level and namespace operations
+    def sim_os_open(self, path, flags, mode=0o777, *, dir_fd=None):
+        p = self.resolve(path) if dir_fd is None else None
+        if p is None:
+            self._guard('os.open', path)
+            return _real['os_open'](path, flags, mode, dir_fd=dir_fd)
+        acc = flags & (os.O_RDONLY | os.O_WRONLY | os.O_RDWR)
+        reading = acc in (os.O_RDONLY, os.O_RDWR)
+        writing = acc in (os.O_WRONLY, os.O_RDWR)
+        raw = FakeRaw(self, p, reading=reading, writing=writing, create=bool(flags & os.O_CREAT), excl=bool(flags & os.O_EXCL),
+                      trunc=bool(flags & os.O_TRUNC) and writing, append=bool(flags & os.O_APPEND), mode='os.open')
+        fd = self._next_fd
+        self._next_fd += 1
+        self._fds[fd] = raw
+        self.bump('os_open_used')
+        return fd
+
+    def sim_close(self, fd):
+        raw = self._fds.pop(fd, None)
+        if raw is None:
+            return _real['close'](fd)
+        raw.close()
+
+    def sim_read(self, fd, n):
+        raw = self._fds.get(fd)
+        if raw is None:
+            return _real['read'](fd, n)
+        buf = bytearray(n)
+        k = raw.readinto(buf)
+        return bytes(buf[:k or 0])
+
+    def sim_write(self, fd, data):
+        raw = self._fds.get(fd)
+        if raw is None:
+            return _real['write'](fd, data)
+        return raw.write(data)
+
+    def sim_fstat(self, fd):
+        raw = self._fds.get(fd)
+        if raw is None:
+            return _real['fstat'](fd)
+        return self._stat_result(raw._node)
+
+    def sim_fsync(self, fd):
+        if fd in self._fds:
+            self.bump('fsync')
+            return None
+        return _real['fsync'](fd)
+
+    def sim_ftruncate(self, fd, length):
+        raw = self._fds.get(fd)
+        if raw is None:
+            return _real['ftruncate'](fd, length)
+        raw.truncate(length)
+
+    def sim_lseek(self, fd, pos, how):
+        raw = self._fds.get(fd)
+        if raw is None:
+            return _real['lseek'](fd, pos, how)
+        return raw.seek(pos, how)
+
+    def _two(self, name, src, dst, src_dir_fd=None, dst_dir_fd=None):
+        a = self.resolve(src) if src_dir_fd is None else None
+        b = self.resolve(dst) if dst_dir_fd is None else None
+        if a is None and b is None:
+            return _real[name](src, dst, src_dir_fd=src_dir_fd, dst_dir_fd=dst_dir_fd)
+        if a is None or b is None:
+            raise OSError(errno.EXDEV, os.strerror(errno.EXDEV), os.fspath(src))       # across the real and the simulated tree
+        n = self.nodes.get(a)
+        if n is None:
+            raise FileNotFoundError(errno.ENOENT, os.strerror(errno.ENOENT), a)
+        self._parent_check(b)
+        t = self.nodes.get(b)
+        if t is not None and t.kind == 'dir' and n.kind != 'dir':
+            raise IsADirectoryError(errno.EISDIR, os.strerror(errno.EISDIR), b)
+        if n.kind == 'dir':
+            pre = a + '/'
+            for q in [q for q in self.nodes if q.startswith(pre)]:
+                self.nodes[b + '/' + q[len(pre):]] = self.nodes.pop(q)
+        self.nodes[b] = self.nodes.pop(a)
+        self._emit(name, [a, b], 'ok')
+        self.bump('rename')
+
+    def sim_rename(self, src, dst, *, src_dir_fd=None, dst_dir_fd=None):
+        return self._two('rename', src, dst, src_dir_fd, dst_dir_fd)
+
+    def sim_replace(self, src, dst, *, src_dir_fd=None, dst_dir_fd=None):
+        return self._two('replace', src, dst, src_dir_fd, dst_dir_fd)
+
+    def sim_unlink(self, path, *, dir_fd=None):
+        p = self.resolve(path) if dir_fd is None else None
+        if p is None:
+            return _real['unlink'](path, dir_fd=dir_fd)
+        n = self.nodes.get(p)
+        if n is None:
+            raise FileNotFoundError(errno.ENOENT, os.strerror(errno.ENOENT), p)
+        if n.kind == 'dir':
+            raise IsADirectoryError(errno.EISDIR, os.strerror(errno.EISDIR), p)
+        del self.nodes[p]
+        self._emit('unlink', p, 'ok')
+
+    def sim_rmdir(self, path, *, dir_fd=None):
+        p = self.resolve(path) if dir_fd is None else None
+        if p is None:
+            return _real['rmdir'](path, dir_fd=dir_fd)
+        n = self.nodes.get(p)
+        if n is None:
+            raise FileNotFoundError(errno.ENOENT, os.strerror(errno.ENOENT), p)
+        if n.kind != 'dir':
+            raise NotADirectoryError(errno.ENOTDIR, os.strerror(errno.ENOTDIR), p)
+        if any(q.startswith(p + '/') for q in self.nodes):
+            raise OSError(errno.ENOTEMPTY, os.strerror(errno.ENOTEMPTY), p)
+        del self.nodes[p]
+        self._emit('rmdir', p, 'ok')
+
+    def sim_access(self, path, mode, *, dir_fd=None, effective_ids=False, follow_symlinks=True):
+        p = self.resolve(path) if dir_fd is None else None
+        if p is None:
+            return _real['access'](path, mode, dir_fd=dir_fd, effective_ids=effective_ids, follow_symlinks=follow_symlinks)
+        return p in self.nodes
+
+    def sim_utime(self, path, times=None, *, ns=None, dir_fd=None, follow_symlinks=True):
+        p = self.resolve(path) if dir_fd is None and not isinstance(path, int) else None
+        if p is None:
+            if isinstance(path, int) and path in self._fds:
+                return None
+            return _real['utime'](path, times, ns=ns, dir_fd=dir_fd, follow_symlinks=follow_symlinks) if ns is not None else \
+                _real['utime'](path, times, dir_fd=dir_fd, follow_symlinks=follow_symlinks)
+        if p not in self.nodes:
+            raise FileNotFoundError(errno.ENOENT, os.strerror(errno.ENOENT), p)
+        if times is not None:
+            self.nodes[p].mtime = int(times[1])
+
+    def sim_chmod(self, path, mode, *, dir_fd=None, follow_symlinks=True):
+        p = self.resolve(path) if dir_fd is None and not isinstance(path, int) else None
+        if p is None:
+            if isinstance(path, int) and path in self._fds:
+                return None
+            return _real['chmod'](path, mode, dir_fd=dir_fd, follow_symlinks=follow_symlinks)
+        if p not in self.nodes:
+            raise FileNotFoundError(errno.ENOENT, os.strerror(errno.ENOENT), p)
+
     # ------------------------------------------------------------------ mount
     def mount(self):
         return _Mount(self)
@@ -390,6 +568,10 @@ class _Mount:
         os.stat, os.lstat = fs.sim_stat, fs.sim_lstat
         os.scandir, os.listdir = fs.sim_scandir, fs.sim_listdir
         os.mkdir, os.getcwd = fs.sim_mkdir, fs.sim_getcwd
+        os.open, os.close, os.read, os.write = fs.sim_os_open, fs.sim_close, fs.sim_read, fs.sim_write
+        os.fstat, os.fsync, os.ftruncate, os.lseek = fs.sim_fstat, fs.sim_fsync, fs.sim_ftruncate, fs.sim_lseek
+        os.rename, os.replace, os.remove, os.unlink, os.rmdir = fs.sim_rename, fs.sim_replace, fs.sim_unlink, fs.sim_unlink, fs.sim_rmdir
+        os.access, os.utime, os.chmod = fs.sim_access, fs.sim_utime, fs.sim_chmod
         return fs
 
     def __exit__(self, *exc):
@@ -398,6 +580,10 @@ class _Mount:
         os.stat, os.lstat = _real['stat'], _real['lstat']
         os.scandir, os.listdir = _real['scandir'], _real['listdir']
         os.mkdir, os.getcwd = _real['mkdir'], _real['getcwd']
+        os.open, os.close, os.read, os.write = _real['os_open'], _real['close'], _real['read'], _real['write']
+        os.fstat, os.fsync, os.ftruncate, os.lseek = _real['fstat'], _real['fsync'], _real['ftruncate'], _real['lseek']
+        os.rename, os.replace, os.remove, os.unlink, os.rmdir = _real['rename'], _real['replace'], _real['remove'], _real['unlink'], _real['rmdir']
+        os.access, os.utime, os.chmod = _real['access'], _real['utime'], _real['chmod']
         self.fs._mounted = False
         return False
 
@@ -458,6 +644,40 @@ class _ScandirIter:
 
     def close(self):
         self._it = iter(())
+
+
+class _NoCloseRaw(io.RawIOBase):
+    """closefd=False view of a FakeRaw."""
+
+    def __init__(self, raw):
+        super().__init__()
+        self._raw = raw
+        self.name = raw.name
+        self.mode = raw.mode
+
+    def readable(self):
+        return self._raw.readable()
+
+    def writable(self):
+        return self._raw.writable()
+
+    def seekable(self):
+        return True
+
+    def readinto(self, b):
+        return self._raw.readinto(b)
+
+    def write(self, b):
+        return self._raw.write(b)
+
+    def seek(self, pos, whence=0):
+        return self._raw.seek(pos, whence)
+
+    def tell(self):
+        return self._raw.tell()
+
+    def truncate(self, size=None):
+        return self._raw.truncate(size)
 
 
 class FakeRaw(io.RawIOBase):
